@@ -105,6 +105,8 @@ fn block() -> impl Strategy<Value = Vec<u8>> {
         // call the ROM tape routine (served by the fast loader when a stopped tape is inserted):
         // LD IX,0xB800 ; LD DE,5 ; LD A,0xFF ; SCF ; CALL 0x0556 ; LD (0xB7F0),A
         2 => Just(vec![0xDD, 0x21, 0x00, 0xB8, 0x11, 0x05, 0x00, 0x3E, 0xFF, 0x37, 0xCD, 0x56, 0x05, 0x32, 0xF0, 0xB7]),
+        // the same asking for 300 bytes (the tape's second block is that long: several buffer refills)
+        1 => Just(vec![0xDD, 0x21, 0x00, 0xB9, 0x11, 0x2C, 0x01, 0x3E, 0xFF, 0x37, 0xCD, 0x56, 0x05, 0x32, 0xF1, 0xB7]),
     ]
 }
 
@@ -208,14 +210,44 @@ pub fn build(sc: &Scenario, asset: AssetKind, sound_on: bool) -> Result<Emu, Str
         }
     };
     r.map_err(|x| format!("initial snapshot through {:?}: {:?}", asset, x))?;
+    if let AssetKind::Chunked(n) = asset {
+        // the machine's own ROM images once more, delivered in short reads: nothing may change
+        // (junk images first, so that a page that is only partly delivered does not go unnoticed)
+        let junk: std::collections::VecDeque<Vec<u8>> = mach::rom_images(sc.machine).into_iter().map(|p| p.iter().map(|b| b ^ 0xFF).collect()).collect();
+        e.load_rom(crate::host::MemRomSet { pages: junk, chunk: 0 }).map_err(|x| format!("load_rom: {:?}", x))?;
+        let pages: std::collections::VecDeque<Vec<u8>> = mach::rom_images(sc.machine).into();
+        e.load_rom(crate::host::MemRomSet { pages, chunk: n.max(1) as usize * 16 }).map_err(|x| format!("load_rom through short reads: {:?}", x))?;
+    }
     let _ = OneByteOrSo { inner: MemAsset::new(vec![]) }.inner;
     if sc.tape % 3 != 0 {
         let t = tap::write(&[
             tap::block(0xFF, &[0xA5, 0x3C, 0x00, 0xFF, 0x81], true),
+            tap::block(0xFF, &(0..300u16).map(|i| (i * 7 + 3) as u8).collect::<Vec<u8>>(), true),
             tap::block(0xFF, &[1, 2, 3, 4, 5], true),
             tap::block(0xFF, &[9, 8, 7, 6, 5], true),
         ]);
-        e.load_tape(Tape::Tap(DynAsset::new(MemAsset::new(t)))).map_err(|x| format!("{:?}", x))?;
+        // the tape travels through the same kind of asset as the initial snapshot
+        let ta: DynAsset = match asset {
+            AssetKind::Mem => DynAsset::new(MemAsset::new(t)),
+            AssetKind::BufferCursor => DynAsset::new(BufferCursor::new(t)),
+            AssetKind::Chunked(n) => DynAsset::new(MemAsset::chunked(t, n.max(1) as usize)),
+            AssetKind::File => {
+                let path = std::env::temp_dir().join(format!("rzxv-c16-{}-{:x}.tap", std::process::id(), fnv(&t) ^ sc.seed ^ (std::thread::current().id().as_u64_hack())));
+                std::fs::write(&path, &t).map_err(|x| x.to_string())?;
+                let f = std::fs::File::open(&path).map_err(|x| x.to_string())?;
+                let _ = std::fs::remove_file(&path);
+                DynAsset::new(FileAsset::from(f))
+            }
+            AssetKind::Gzip => {
+                use flate2::{write::GzEncoder, Compression};
+                use std::io::Write;
+                let mut enc = GzEncoder::new(Vec::new(), Compression::fast());
+                enc.write_all(&t).unwrap();
+                let gz = enc.finish().unwrap();
+                DynAsset::new(GzipAsset::new(std::io::Cursor::new(gz)).map_err(|x| x.to_string())?)
+            }
+        };
+        e.load_tape(Tape::Tap(ta)).map_err(|x| format!("{:?}", x))?;
         if sc.tape % 3 == 1 {
             e.play_tape();
         } else {
@@ -463,7 +495,7 @@ pub fn replay(run: &mut Run, phase: &str, case: &serde_json::Value) -> Result<()
 }
 
 pub const LEVEL: &str = "exploration";
-pub const RULE: &str = "scenario = machine x generated interrupt-driven program (ALU, memory and screen writes, beeper/border OUTs, keyboard+EAR, Kempston and mouse reads stored to RAM, AY register writes with read-back, 128K paging, LDIR, HALT, EI/DI) with a self-counting IM 1 / IM 2 handler x sound settings (AY, beeper, sample rate 8000..96000, volume) x optional playing tape x input script (key / joystick / mouse events attached to frame indices) x K = 2..12 frames, started from a SNA file. The reference run drives it one frame per call, draining audio. The run under test uses one of: the same again (repeatability, audio compared bit for bit), a partition into FrameCount(n) calls, maximum-speed mode with scripted stopwatch readings (zeros, non-monotonic, large), breakpoint stops after generated instruction counts with resumption, audio never drained, sound switched off, sound switched on and off between frames; and delivers the initial file through the harness asset, rustzx's BufferCursor, a real temporary file (FileAsset), GzipAsset, or an asset returning 1..255 bytes per read. At every frame count where the run under test stops on a frame boundary, a hash of registers, all RAM banks, paging, frame clock, canvas and border buffers must equal the reference run's. non-trivial = >= 2 frames and a driving or asset different from the reference; distinct = hash of the case";
+pub const RULE: &str = "scenario = machine x generated interrupt-driven program (ALU, memory and screen writes, beeper/border OUTs, keyboard+EAR, Kempston and mouse reads stored to RAM, AY register writes with read-back, 128K paging, LDIR, HALT, EI/DI) with a self-counting IM 1 / IM 2 handler x sound settings (AY, beeper, sample rate 8000..96000, volume) x optional playing tape x input script (key / joystick / mouse events attached to frame indices) x K = 2..12 frames, started from a SNA file. The reference run drives it one frame per call, draining audio. The run under test uses one of: the same again (repeatability, audio compared bit for bit), a partition into FrameCount(n) calls, maximum-speed mode with scripted stopwatch readings (zeros, non-monotonic, large), breakpoint stops after generated instruction counts with resumption, audio never drained, sound switched off, sound switched on and off between frames; and delivers the initial file, the tape image and (with short reads) the ROM images through the harness asset, rustzx's BufferCursor, a real temporary file (FileAsset), GzipAsset, or an asset returning 1..255 bytes per read. At every frame count where the run under test stops on a frame boundary, a hash of registers, all RAM banks, paging, frame clock, canvas and border buffers must equal the reference run's. non-trivial = >= 2 frames and a driving or asset different from the reference; distinct = hash of the case";
 pub const ASSUMPTIONS: &[&str] = &[
     "inputs are applied between emulate_frames calls at the same frame indices in all drivings (the property's 'inputs applied at frame boundaries')",
     "total frame count comes from the cfg(rustzx_verif) frame counter hook",
